@@ -61,7 +61,43 @@ TARGETS = {
                  "--extern-fn", "Marker::from_u8=marker_of_u8:Marker", "--drop-param", "bump",
                  "--import", "Gen.NanBoxGen", "--import", "Base.F64", "--import", "Read.LazyTypes"],
     },
+    # api/src/read.rs: the body of impl_deserialize_for_int! instantiated for its ten integer types (C10)
+    "IntDeserGen": {
+        "src": "api/src/read.rs",
+        "pre": "int_deser",
+        "args": ["--types", "IntDeser", "--f64-decoded", "--extern-enum", "Error=APIERR_",
+                 "--foreign", "Value{n:Option<f64>}", "--extern-method", "Value::as_number=value_as_number:Option<f64>",
+                 "--import", "Base.F64", "--import", "Api.IntDeser", "--import", "Api.IntDeserExt"],
+    },
 }
+
+
+def pre_int_deser(repo, src_path):
+    """The macro body of `impl_deserialize_for_int!` as ten inherent functions of a unit struct (textual instantiation
+    of `$ty`, what the macro expander does), so that it can be parsed as ordinary Rust."""
+    import re
+    src = open(src_path).read()
+    m = re.search(r"macro_rules!\s*impl_deserialize_for_int\s*\{\s*\(\$ty:ty\)\s*=>\s*\{(.*?)\n\s*\};\s*\}", src, re.S)
+    if not m:
+        raise TranslatorError("T8: macro impl_deserialize_for_int!($ty:ty) not found in api/src/read.rs")
+    body = m.group(1)
+    f = re.search(r"fn\s+deserialize\s*\(\s*value\s*:\s*&Value\s*\)\s*->\s*Result<Self,\s*Error>\s*(\{.*\})\s*\}\s*$", body.strip(), re.S)
+    if not f:
+        raise TranslatorError("T8: `fn deserialize(value: &Value) -> Result<Self, Error>` not found inside impl_deserialize_for_int!")
+    fbody = f.group(1)
+    tys = re.findall(r"^impl_deserialize_for_int!\((\w+)\);", src, re.M)
+    if len(tys) < 1:
+        raise TranslatorError("T8: no instantiation of impl_deserialize_for_int! found")
+    line = src[:m.start()].count("\n") + 1
+    out = "// instantiations of impl_deserialize_for_int! (api/src/read.rs:%d) for %s\nstruct IntDeser;\nimpl IntDeser {\n" % (line, ", ".join(tys))
+    for t in tys:
+        out += "    fn deserialize_%s(value: &Value) -> Result<%s, Error> %s\n" % (t, t, fbody.replace("<$ty>", "<%s>" % t).replace("$ty", t))
+    out += "}\n"
+    d = os.path.join(CACHE, "rs2v")
+    os.makedirs(d, exist_ok=True)
+    path = os.path.join(d, "int_deser.rs")
+    open(path, "w").write(out)
+    return path, {"instantiated_for": tys}
 
 
 def binary():
@@ -80,12 +116,15 @@ def binary():
 def generate(repo, name, coq_dir=None):
     t = TARGETS[name]
     out = os.path.join(coq_dir or os.path.join(VERIF, "coq"), "theories", "Gen", name + ".v")
-    p = subprocess.run([binary(), "--src", os.path.join(repo, t["src"]), "--out", out] + [a.replace("{repo}", repo) for a in t["args"]],
+    src, extra = os.path.join(repo, t["src"]), {}
+    if t.get("pre"):
+        src, extra = globals()["pre_" + t["pre"]](repo, src)
+    p = subprocess.run([binary(), "--src", src, "--out", out] + [a.replace("{repo}", repo) for a in t["args"]],
                        stdout=subprocess.PIPE, stderr=subprocess.STDOUT, text=True, timeout=120)
     if p.returncode != 0:
         raise TranslatorError(p.stdout.strip()[-800:] or "T8: rs2v failed")
     n = sum(1 for l in open(out) if l.startswith("Definition ") and "(W : N) (trap : bool)" in l)
-    return {"file": "Gen/" + name + ".v", "source": t["src"], "functions_translated": n}
+    return dict({"file": "Gen/" + name + ".v", "source": t["src"], "functions_translated": n}, **extra)
 
 
 if __name__ == "__main__":
